@@ -12,7 +12,43 @@ func init() {
 	vfRegister("VfC06_doModify", VfC06_doModify)
 	vfRegister("VfC06_handover", VfC06_handover)
 	vfRegister("VfC06_halfClose", VfC06_halfClose)
+	vfRegister("VfC06_manyHeld40", VfC06_manyHeld40)
+	vfRegister("VfC06_manyHeld300", VfC06_manyHeld300)
 }
+
+// vfManyHeld: scale bound - the primary has N held operations (groups 1000+i each waiting for
+// next-hop 5000+i), then sends one symbolic operation (any kind; a next-hop ADD may resolve any
+// ONE of the held groups, or none).  Per-id verdict counting over everything the call emits.
+func vfManyHeld(n int) {
+	s, id := vfPrimaryServer()
+	fibAck := vfBool("fib-ack")
+	s.cs["A"].params.FIBAck = fibAck
+	var heldPre []uint64
+	for i := 0; i < n; i++ {
+		resCh, errCh := make(chan *spb.ModifyResponse, 4), make(chan error, 4)
+		s.doModify("A", []*spb.AFTOperation{vfNHGOp(uint64(10000+i), DefaultNetworkInstanceName, uint64(1000+i), uint64(5000+i), id)}, resCh, errCh)
+		res, nerr := vfDrain(resCh, errCh)
+		if len(res) != 0 || nerr != 0 {
+			vfAssert(false, "C06:forward-reference-is-held-silently")
+			return
+		}
+		heldPre = append(heldPre, uint64(10000+i))
+	}
+	vfReach("pre-built")
+	op := vfSymReqOp(1, id)
+	resCh, errCh := make(chan *spb.ModifyResponse, 2*n+8), make(chan error, 8)
+	s.doModify("A", []*spb.AFTOperation{op}, resCh, errCh)
+	results, nerr := vfDrain(resCh, errCh)
+	heldPost := s.masterRIB.VfPendingIDs()
+	vfCheckAnswers(results, nerr, []uint64{1}, heldPre, heldPost, fibAck)
+	if len(heldPost) < n {
+		vfReach("resolved-one")
+	}
+	vfReach("end")
+}
+
+func VfC06_manyHeld40() { vfManyHeld(40) }
+func VfC06_manyHeld300() { vfManyHeld(300) }
 
 func vfDrain(resCh chan *spb.ModifyResponse, errCh chan error) (results []*spb.AFTResult, nerr int) {
 	close(resCh)
